@@ -125,9 +125,11 @@ def opt_sites(root):
                 seen.add(pname)
                 if getattr(type(m), pname, None) is not attr:
                     continue
-                inner = attr._inner_field
+                inner = getattr(attr, '_inner_field', None)
                 fname = getattr(inner, '_attr', None)
-                if isinstance(inner, F.optional_field) and fname in names:
+                if fname not in names and pname.startswith('raw_') and '_' + pname[4:] in names:
+                    fname = '_' + pname[4:]          # generated naming convention (private names may be renamed)
+                if (inner is None or isinstance(inner, F.optional_field)) and fname in names:
                     out.append((list(steps), m, pname, fname))
         for k, v in fields:
             if isinstance(v, Repeated):
@@ -164,6 +166,8 @@ def edit_sites(root):
                 if getattr(type(m), pname, None) is not attr:
                     continue
                 fname = getattr(getattr(attr, '_inner_field', None), '_attr', None)
+                if fname not in names and '_' + pname[4:] in names:
+                    fname = '_' + pname[4:]          # generated naming convention (private names may be renamed)
                 if fname not in names:
                     continue
                 if isinstance(attr, (props.required_node_property, props.optional_node_property)):
